@@ -179,7 +179,9 @@ def run_case(case):
                     k = tr + sub
                     if k not in s0 and k in s1:
                         obs['dirs_created_checked'] = obs.get('dirs_created_checked', 0) + 1
-                        if s1[k][1] != 0o700:
+                        # a directory made inside a set-gid directory
+                        # inherits that bit from the kernel, not from mkdir
+                        if (s1[k][1] & ~0o2000) != 0o700:
                             viol('created-dir-mode-%04o' % s1[k][1], path=k)
                 # the rename that delivered THIS payload
                 dst_real = os.path.realpath(w.abs(tr)) + '/files/' + o.get('name', '')
